@@ -84,6 +84,51 @@ class Main(Part):
         return {"nontrivial": nontrivial, "classes": cl}
 
 
+class HaloStacksOneSided(Part):
+    """
+    The class of known finding F-C04-5 (>= 2 partition levels whose follower needs a halo) has no exact oracle on this tree:
+    contributions of halo elements are counted twice.  What the property still demands there and the tree still delivers is
+    the other direction: nothing is lost.  With strictly positive inputs every contribution is positive, so every output
+    element must be >= the dense evaluation (and present whenever the dense evaluation is non-zero).
+    """
+    name = "halo-stacks-one-sided"
+    handles_excluded = ("multi_level_partition_with_halo",)
+    rule = ("cases of the main part's generator restricted to the class of known finding F-C04-5 (two partition levels, follower with "
+            "halo) and outside every other excluded class, run on an all-dense strictly positive input and on the drawn input with "
+            "absolute values: every output element must be >= its dense evaluation (no contribution may be lost; double counting, "
+            "the known finding, is tolerated). Non-trivial = >= 2 taps and >= 2 partitions formed.")
+
+    def budget(self, tier):
+        return {"quick": dict(examples=400, shards=3, seconds=60),
+                "thorough": dict(examples=1500, shards=8, seconds=400)}[tier]
+
+    def strategy(self, tier):
+        return gen.case_affine(max_extent=6 if tier == "quick" else 8, force_levels=2).filter(multi_level_partition_with_halo)
+
+    def run_case(self, case):
+        spec = case["spec"]
+        hf = oracle.compile_or_skip(spec)
+        text = str(hf)
+        out = S.outputs(spec)[0]
+        nontrivial = False
+        drawn_abs = {n: [[c, abs(v)] for c, v in items if v] for n, items in case["inputs"].items()}
+        for variant, inputs in (("dense", dense_inputs(case)), ("drawn-abs", drawn_abs)):
+            c = dict(case, inputs=inputs)
+            run = oracle.run_or_violation(text, c, what="program (%s input)" % variant)
+            got, err = X.output_map(run["ns"], spec, out)
+            if err:
+                raise Violation(err, sig="output-malformed", details={"yaml": S.to_yaml(spec), "text": text})
+            exp = oracle.expected_outputs(c)[out]
+            lost = [(k, v, got.get(k, 0)) for k, v in sorted(exp.items()) if v and got.get(k, 0) < v]
+            if lost:
+                raise Violation("program (%s input, all values positive) loses contributions: (coordinate, dense evaluation, output) = %r"
+                                % (variant, lost[:6]), sig="contribution-lost", details={"yaml": S.to_yaml(spec), "text": text})
+            taps = max([case["extents"].get(r, 1) for r in ("S", "R")] + [1])
+            if exp and taps >= 2 and run["stats"].get("splitUniform>=2", 0) > 0:
+                nontrivial = True
+        return {"nontrivial": nontrivial, "classes": ["template=" + case["template"]]}
+
+
 # --------------------------------------------------------------------------
 # excluded classes of known findings (predicates on the case)
 
@@ -252,4 +297,4 @@ EXCLUDED = {
 }
 
 
-PARTS = [Main()]
+PARTS = [Main(), HaloStacksOneSided()]
